@@ -1738,8 +1738,14 @@ void mmd_assign_ambidextrous_tokens_in_block(mmd_engine * e, token * block, size
 /// consecutive characters should be interpreted as STRONG instead of EMPH
 /// \todo: Perhaps combining this with the routine when they are paired
 /// would improve performance?
-void pair_emphasis_tokens(token * t) {
+static void pair_emphasis_tokens_at_depth(token * t, unsigned short depth) {
 	token * closer;
+
+	// Avoid stack overflow in "pathologic" input -- a single pairing pass can
+	// build a tree that is as deep as the input is long
+	if (depth == kMaxPairRecursiveDepth) {
+		return;
+	}
 
 	while (t != NULL) {
 		if (t->mate != NULL) {
@@ -1787,13 +1793,18 @@ void pair_emphasis_tokens(token * t) {
 					break;
 
 				default:
-					pair_emphasis_tokens(t->child);
+					pair_emphasis_tokens_at_depth(t->child, depth + 1);
 					break;
 			}
 		}
 
 		t = t->next;
 	}
+}
+
+
+void pair_emphasis_tokens(token * t) {
+	pair_emphasis_tokens_at_depth(t, 0);
 }
 
 
